@@ -251,6 +251,14 @@ void do_op(string op, string ctx) {
     vlog("\"e\":\"LoadNamed\",\"mode\":" + jq(f[1]) + ",\"got\":" + (o ? 1 : 0) + ",\"ran\":" + (r ? 1 : 0) + ",\"found\":" + (find_object("/obj/wsd") ? 1 : 0));
     o = find_object("/obj/wsd"); if (o) destruct(o);
     break;
+  case "wldi":     // wldi:reenter | wldi:plain   load /obj/wix, whose not yet loaded parent's create() loads /obj/wix itself (reenter) or not
+    "/reg"->set_hook("wip", "create", f[1]);
+    foreach (o in children("/obj/wix") + children("/obj/wip")) if (o) destruct(o);
+    o = 0;
+    rest = catch(o = load_object("/obj/wix"));
+    vlog("\"e\":\"LoadInherit\",\"mode\":" + jq(f[1]) + ",\"got\":" + (o ? 1 : 0) + ",\"same\":" + ((o && o == find_object("/obj/wix")) ? 1 : 0) + ",\"copies\":" + sizeof(children("/obj/wix")));
+    foreach (o in children("/obj/wix") + children("/obj/wip")) if (o) destruct(o);
+    break;
   case "whook":   // whook:BASE:KIND:ops  (create hooks are per file)
     "/reg"->set_hook(f[1], f[2], replace_string(implode(f[3..], ":"), "|", ";"));
     break;
